@@ -17,11 +17,13 @@ package main
 
 import (
 	"bytes"
+	"errors"
 	"context"
 	"encoding/json"
 	"fmt"
 	"io"
 	"math"
+	"math/big"
 	"net/http"
 	"os"
 	"os/exec"
@@ -859,6 +861,60 @@ func codecFieldsChannel(o vh.Opts, rng *vh.RNG) *vh.Channel {
 	return ch
 }
 
+
+// ------------------------------------------------------------------ channel parse.num
+
+func exactRat(v float64) string {
+	r := new(big.Rat)
+	if r.SetFloat64(v) == nil {
+		return "nan"
+	}
+	if r.IsInt() {
+		return r.Num().String()
+	}
+	return r.Num().String() + "/" + r.Denom().String()
+}
+
+// parseNumChannel: processor.parseNum on spellings of every class vs the model's specification parseNumSpec
+// (tokens whose value is exactly representable, so that the float64 result is the exact rational of the literal).
+func parseNumChannel(o vh.Opts, rng *vh.RNG) *vh.Channel {
+	ch := vh.NewChannel("parse.num", "processor.parseNum(token) vs SV.Agg.parseNumSpec: which strings are numbers and their exact value (zero-padded decimals, signs, exponents, points, hexadecimal floats, base prefixes, underscores, spaces, inf / nan spellings, overflow); non-trivial = a token that is not a plain decimal integer")
+	add := func(tok string, tag string) {
+		v, err := processor.VerifC06ParseNum(tok)
+		impl := "err"
+		if err == nil {
+			impl = "ok " + exactRat(v)
+		}
+		plain := tok != "" && strings.Trim(tok, "0123456789") == "" && (len(tok) == 1 || tok[0] != '0')
+		ch.Add("num "+vh.Hex([]byte(tok)), impl, !plain, "class="+tag)
+	}
+	for _, t := range numberSpellings {
+		add(t, "integer-spelling")
+	}
+	for _, t := range notNumbers {
+		add(t, "not-a-number")
+	}
+	for _, t := range []string{" 5", "5 ", "\t5", "5\n", "+5", "+0100", "-007", "0.5", ".5", "-.25", "0.125e1", "1.5", "0x1p-2", "0x.8p1", "0X1P+4", "0x1.8p-1", "0x1p", "0xp1", "0x1.p1",
+		"+Inf", "+infinity", "INF", "nan", "+nan", "-NaN", "Infinity", "iNf", "1e309", "-1e309", "1e22", "1e1_0", "1_e5", "1e_5", "-1_0.0_1e1_0", "0x1_0p0", "1._5", "1_.5",
+		"0b1", "0B1", "0o7", "0O7", "0_1", "1__0", "_1", "1_", "0x_1p0", "1e+", "1e-", "1E+02", "1e0002", "0e0", "000", "9223372036854775808", "18446744073709551616", "123456789012", "٣", "１２", "1,5", "1 000", "1e2.0", "++1", "+-1", "0x1P0x1"} {
+		add(t, "directed")
+	}
+	ints := []string{"0", "1", "7", "08", "010", "0100", "0777", "12", "100", "4096", "00012"}
+	fracs := []string{"", ".", ".0", ".5", ".25", ".75", ".125", ".50"}
+	exps := []string{"", "e0", "E1", "e+2", "e3", "E+01", "e-0"}
+	signs := []string{"", "", "-", "+"}
+	for i := o.Pick(300, 3000); i > 0; i-- {
+		tok := signs[rng.Intn(len(signs))] + ints[rng.Intn(len(ints))] + fracs[rng.Intn(len(fracs))] + exps[rng.Intn(len(exps))]
+		if rng.Chance(1, 8) { // damage it
+			junk := []string{"_", " ", "x", "0x", "e", ".", "p1", "b"}[rng.Intn(8)]
+			pos := rng.Intn(len(tok) + 1)
+			tok = tok[:pos] + junk + tok[pos:]
+		}
+		add(tok, "generated")
+	}
+	return ch
+}
+
 // ------------------------------------------------------------------ scripted index for processor.IndexSearch
 
 type doc struct {
@@ -989,7 +1045,50 @@ func (a aggq) toQuery() processor.AggQuery {
 // SourcedNodeIterator.ValueBySource.
 var prodLimits = processor.AggLimits{MaxFieldTokens: 1000000, MaxGroupTokens: 2000, MaxTIDsPerFraction: 100000}
 
-func search(ix *fakeIndex, aggs []aggq, histInterval uint64, order seq.DocsOrder, limits bool) (qpr *seq.QPR, err error) {
+// limSpec: aggregation limits of a run: "0" = none (the testing default), "1" = the seq-db binary's defaults,
+// "sG.F.T" = small MaxGroupTokens.MaxFieldTokens.MaxTIDsPerFraction (0 = that limit off) so that some fraction /
+// store refuses the aggregation.
+type limSpec string
+
+func (l limSpec) limits() processor.AggLimits {
+	switch {
+	case l == "" || l == "0":
+		return processor.AggLimits{}
+	case l == "1":
+		return prodLimits
+	}
+	var g, f, t int
+	fmt.Sscanf(string(l), "s%d.%d.%d", &g, &f, &t)
+	return processor.AggLimits{MaxGroupTokens: g, MaxFieldTokens: f, MaxTIDsPerFraction: t}
+}
+func (l limSpec) small() bool { return strings.HasPrefix(string(l), "s") }
+func (l limSpec) tag() string {
+	switch {
+	case l.small():
+		return "limits=small"
+	case l == "1":
+		return "limits=production"
+	}
+	return "limits=none"
+}
+
+func genLim(r *vh.RNG) limSpec {
+	switch r.Intn(4) {
+	case 0:
+		return "0"
+	case 1, 2:
+		return "1"
+	}
+	pick := func() int { return []int{0, 1, 2, 3, 5}[r.Intn(5)] }
+	return limSpec(fmt.Sprintf("s%d.%d.%d", pick(), pick(), []int{0, 1, 2, 5, 8}[r.Intn(5)]))
+}
+
+// refused: the aggregation was refused because of a limit - an explicit outcome the property allows
+func refused(err error) bool {
+	return err != nil && (errors.Is(err, consts.ErrTooManyUniqValues) || strings.Contains(err.Error(), consts.ErrTooManyUniqValues.Error()))
+}
+
+func search(ix *fakeIndex, aggs []aggq, histInterval uint64, order seq.DocsOrder, limits limSpec) (qpr *seq.QPR, err error) {
 	defer func() {
 		if e := recover(); e != nil {
 			err = fmt.Errorf("panic: %v", e)
@@ -1007,11 +1106,7 @@ func search(ix *fakeIndex, aggs []aggq, histInterval uint64, order seq.DocsOrder
 	for _, a := range aggs {
 		p.AggQ = append(p.AggQ, a.toQuery())
 	}
-	lim := processor.AggLimits{}
-	if limits {
-		lim = prodLimits
-	}
-	return processor.IndexSearch(context.Background(), p, ix, lim, stopwatch.New())
+	return processor.IndexSearch(context.Background(), p, ix, limits.limits(), stopwatch.New())
 }
 
 func fmtDocs(docs []doc) string {
@@ -1048,6 +1143,13 @@ var groupVals = []string{"ga", "gb", "gc", "_not_exists"}
 // representable floats that are multiples of 2^19 below 2^66, so that sums over a corpus stay exact
 var hugeTokens = []string{"1e19", "-1e19", "3e19", "-3e19", "9223372036854775808", "-9.223372036854775808e18", "18446744073709551616", "1.0E19"}
 
+// numberSpellings: integer-valued field tokens in spellings other than plain decimal (zero padded - NOT octal -,
+// explicit plus, exponents, trailing / leading point, hexadecimal floats); notNumbers: tokens parseNum must reject
+// (base prefixes, underscores, spaces, infinities and NaNs in every spelling).  No `+`, `,`, `:`, `|` inside (separators
+// of the case rendering) except the leading plus, which fmtDocs / parseDocs keep.
+var numberSpellings = []string{"0100", "007", "-0020", "010", "00", "1e2", "1E2", "2.50e1", "5.", "100e-2", "12.0", "0x10p0", "0X1.8p1", "-0x1p3", "1e3", "0008", "1_000", "0_7"}
+var notNumbers = []string{"x", "1__000", "0x10", "0b101", "0o17", "Inf", "-inf", "NaN", "infinity", "1e400", "1e", "e5", "", "0x", "1.5.2", "--1"}
+
 // tokVal parses a field token the way the aggregators do (strconv.ParseFloat); ok=false for an unparsable token.
 func tokVal(tok string) (float64, bool) {
 	v, err := strconv.ParseFloat(tok, 64)
@@ -1079,8 +1181,11 @@ func genDocs(r *vh.RNG, n int, multi bool, bad bool) []doc {
 			if valMode != 0 {
 				d.f = []string{hugeTokens[r.Intn(len(hugeTokens))]}
 			}
+			if valMode == 0 && r.Chance(1, 4) { // other spellings of integers: the value of a token is ParseFloat's
+				d.f = []string{numberSpellings[r.Intn(len(numberSpellings))]}
+			}
 			if bad && r.Chance(1, 6) {
-				d.f = []string{"x"}
+				d.f = []string{notNumbers[r.Intn(len(notNumbers))]}
 			}
 			if multi && r.Chance(1, 4) {
 				if valMode != 0 {
@@ -1122,12 +1227,8 @@ func modelAggRequest(ix *fakeIndex, a aggq, order seq.DocsOrder) string {
 		for _, tid := range ix.fields[field] {
 			ps = append(ps, vh.JoinInts(ix.postings[tid]))
 			tok := ix.tokens[tid]
-			if field == "f" { // the model's `fval` is the parsed value: exact decimal expansion, or x
-				if v, ok := tokVal(tok); ok && v == math.Trunc(v) {
-					tok = fnum(v)
-				} else {
-					tok = "x"
-				}
+			if field == "f" { // the raw token: the model values it with its own specification of parseNum (tokenInt)
+				tok = "h" + vh.Hex([]byte(tok))
 			}
 			vs = append(vs, tok)
 		}
@@ -1172,7 +1273,7 @@ func aggIndexChannel(o vh.Opts, rng *vh.RNG) (*vh.Channel, *vh.Channel) {
 		docs := genDocs(rng, rng.Range(0, o.Pick(10, 24)), multi, bad)
 		valMode = 0
 		tidOff := rng.Intn(3)
-		limits := rng.Bool()
+		limits := genLim(rng)
 		ix := buildIndex(docs, tidOff)
 		aggs := genAggs(rng)
 		order := seq.DocsOrder(rng.Intn(2))
@@ -1203,9 +1304,17 @@ func aggIndexChannel(o vh.Opts, rng *vh.RNG) (*vh.Channel, *vh.Channel) {
 				ch.Add("agg-go-panic "+fmtDocs(docs), "panic "+err.Error(), false, "outcome=panic")
 				continue
 			}
+			if limits.small() && refused(err) { // an explicit refusal: nothing to compare (c06_limits_transparent covers the rest)
+				ch.Tag("outcome=limit-refusal")
+				continue
+			}
 			for _, a := range aggs {
 				solo, serr := search(ix, []aggq{a}, 0, order, limits)
 				req := modelAggRequest(ix, a, order)
+				if limits.small() && refused(serr) {
+					ch.Tag("outcome=limit-refusal")
+					continue
+				}
 				if serr != nil {
 					ch.Add(req, "err parse", nmatch >= 2, "fn="+a.fn, "outcome=err", "multi="+vh.B(multi))
 				} else {
@@ -1216,7 +1325,7 @@ func aggIndexChannel(o vh.Opts, rng *vh.RNG) (*vh.Channel, *vh.Channel) {
 		}
 		for j, a := range aggs {
 			ch.Add(modelAggRequest(ix, a, order), "ok "+fmtASx(&qpr.Aggs[j], false, true), nmatch >= 2, "fn="+a.fn, "outcome=ok",
-				"multi="+vh.B(multi), "group="+vh.B(a.group), fmt.Sprintf("timeseries=%s", vh.B(a.interval > 0)), "rev="+vh.B(order.IsReverse()), mtag, "prod-limits="+vh.B(limits), fmt.Sprintf("tid-offset=%d", tidOff))
+				"multi="+vh.B(multi), "group="+vh.B(a.group), fmt.Sprintf("timeseries=%s", vh.B(a.interval > 0)), "rev="+vh.B(order.IsReverse()), mtag, limits.tag(), fmt.Sprintf("tid-offset=%d", tidOff))
 		}
 	}
 	return ch, hch
@@ -1441,7 +1550,7 @@ func expectedBucketsX(fracs [][]doc, a aggq, skip bool, asFound bool) string {
 }
 
 type sysCase struct {
-	limits bool // run with the production default aggregation limits
+	limits limSpec // aggregation limits of the run
 	tidOff int  // reserved tids before the fields' tokens
 	huge   bool
 	fracs [][]doc
@@ -1457,8 +1566,8 @@ func (c sysCase) String() string {
 		fs = append(fs, fmtDocs(f))
 	}
 	opts := ""
-	if c.limits || c.tidOff != 0 {
-		opts = fmt.Sprintf(" opts=lim%s,off%d", vh.B(c.limits), c.tidOff)
+	if (c.limits != "" && c.limits != "0") || c.tidOff != 0 {
+		opts = fmt.Sprintf(" opts=lim%s,off%d", c.limits, c.tidOff)
 	}
 	return fmt.Sprintf("sys %s hist=%d order=%d perm=%s fracs=%s%s", c.agg.String(), c.hist, c.order, vh.JoinInts(c.perm), strings.Join(fs, "|"), opts)
 }
@@ -1470,9 +1579,11 @@ func parseSys(line string) (sysCase, bool) {
 	}
 	var c sysCase
 	if len(f) == 7 {
-		var l int
-		fmt.Sscanf(strings.TrimPrefix(f[6], "opts="), "lim%d,off%d", &l, &c.tidOff)
-		c.limits = l == 1
+		o := strings.SplitN(strings.TrimPrefix(f[6], "opts=lim"), ",off", 2)
+		c.limits = limSpec(o[0])
+		if len(o) == 2 {
+			c.tidOff, _ = strconv.Atoi(o[1])
+		}
 	}
 	c.agg = parseAggq(f[1])
 	c.hist, _ = strconv.ParseUint(strings.TrimPrefix(f[2], "hist="), 10, 64)
@@ -1496,6 +1607,11 @@ func runSys(c sysCase, rep *vh.Report, orc *vh.Oracle) {
 	var qprs []*seq.QPR
 	for _, i := range c.perm {
 		qpr, err := search(buildIndex(c.fracs[i], c.tidOff), []aggq{c.agg}, c.hist, c.order, c.limits)
+		if c.limits.small() && refused(err) {
+			// a fraction over its limit refuses the aggregation: an explicit outcome, never a short answer
+			orc.Case(c.String(), false, "outcome=limit-refusal", c.limits.tag())
+			return
+		}
 		if err != nil {
 			rep.Violate(vh.Violation{Site: "frac/processor/search.go:IndexSearch", Class: "agg-error-on-valid-input", What: err.Error(), Replay: []string{c.String()}})
 			return
@@ -1519,7 +1635,7 @@ func runSys(c sysCase, rep *vh.Report, orc *vh.Oracle) {
 			}
 		}
 	}
-	orc.Case(c.String(), nmatch >= 3 && len(c.fracs) >= 2, "beyond-int64="+vh.B(c.huge), "prod-limits="+vh.B(c.limits), "fn="+c.agg.fn, fmt.Sprintf("fracs=%d", len(c.fracs)), "group="+vh.B(c.agg.group), "timeseries="+vh.B(c.agg.interval > 0))
+	orc.Case(c.String(), nmatch >= 3 && len(c.fracs) >= 2, "beyond-int64="+vh.B(c.huge), c.limits.tag(), "fn="+c.agg.fn, fmt.Sprintf("fracs=%d", len(c.fracs)), "group="+vh.B(c.agg.group), "timeseries="+vh.B(c.agg.interval > 0))
 	if got != want {
 		site, class := classify(c.fracs, c.agg, skip, got, want)
 		rep.Violate(vh.Violation{Site: site, Class: class,
@@ -1560,7 +1676,7 @@ func genSys(r *vh.RNG, maxDocs int) sysCase {
 		c.agg.fn = "min"
 	}
 	c.huge = valMode != 0
-	c.limits = r.Bool()
+	c.limits = genLim(r)
 	c.tidOff = r.Intn(3)
 	return c
 }
@@ -1599,7 +1715,7 @@ type e2eQ struct {
 
 // e2eEnv brings up one environment, ingests the batches (document MIDs are offsets in ms from a base minute a few
 // minutes in the past), seals where asked, runs the queries and checks every answer against the documents.
-func e2eEnv(rep *vh.Report, orc *vh.Oracle, shards int, limits bool, batches [][]doc, sealAfter []bool, queries []e2eQ) {
+func e2eEnv(rep *vh.Report, orc *vh.Oracle, shards int, limits limSpec, batches [][]doc, sealAfter []bool, queries []e2eQ) {
 	dir, err := os.MkdirTemp("", "c06-e2e-")
 	if err != nil {
 		orc.Error = err.Error()
@@ -1612,13 +1728,13 @@ func e2eEnv(rep *vh.Report, orc *vh.Oracle, shards int, limits bool, batches [][
 			"g": seq.NewSingleType(seq.TokenizerTypeKeyword, "", 0),
 			"f": seq.NewSingleType(seq.TokenizerTypeKeyword, "", 0),
 		}}
-	if limits { // the seq-db binary's default aggregation limits (the testing env runs without limits otherwise)
+	if limits != "" && limits != "0" { // the seq-db binary's default aggregation limits, or small ones (the testing env runs without limits otherwise)
 		cfg.FracManagerConfig = fracmanager.FillConfigWithDefault(&fracmanager.Config{
 			FracSize:  256 * consts.MB,
 			TotalSize: 1 * consts.GB,
 			SealParams: frac.SealParams{IDsZstdLevel: -5, LIDsZstdLevel: -5, TokenListZstdLevel: -5, DocsPositionsZstdLevel: -5,
 				TokenTableZstdLevel: -5, DocBlocksZstdLevel: -5, DocBlockSize: consts.MB * 4},
-			Fraction: frac.Config{Search: frac.SearchConfig{AggLimits: frac.AggLimits(prodLimits)}},
+			Fraction: frac.Config{Search: frac.SearchConfig{AggLimits: frac.AggLimits(limits.limits())}},
 		})
 	}
 	env := setup.NewTestingEnv(cfg)
@@ -1685,20 +1801,27 @@ func e2eEnv(rep *vh.Report, orc *vh.Oracle, shards int, limits bool, batches [][
 		}
 		var qpr *seq.QPR
 		var err error
-		if q.async {
+		if q.async && !limits.small() {
 			qpr, err = asyncSearch(env, aq, q, base)
 		} else {
+			q.async = false
 			qpr, _, _, err = env.Search("m:1", 5, opts...)
 		}
 		// the case key uses offsets from the base minute, not wall-clock time
-		key := fmt.Sprintf("e2e shards=%d sealed=%d lim=%s async=%s %s hist=%d order=%d range=%d-%d docs=%s", shards, sealed, vh.B(limits), vh.B(q.async), a.String(), q.hist, q.order, q.from, q.to, fmtDocs(rel))
+		key := fmt.Sprintf("e2e shards=%d sealed=%d lim=%s async=%s %s hist=%d order=%d range=%d-%d docs=%s", shards, sealed, limits, vh.B(q.async), a.String(), q.hist, q.order, q.from, q.to, fmtDocs(rel))
 		nmatch := 0
 		for _, d := range inRange {
 			if d.match {
 				nmatch++
 			}
 		}
-		orc.Case(key, nmatch >= 3 && (shards > 1 || sealed > 0 || ranged), "fn="+a.fn, fmt.Sprintf("shards=%d", shards), fmt.Sprintf("sealed=%d", sealed), "timeseries="+vh.B(a.interval > 0), "ranged="+vh.B(ranged), fmt.Sprintf("active-docs=%s", vh.B(activeDocs > 0)), "prod-limits="+vh.B(limits), "async="+vh.B(q.async))
+		orc.Case(key, nmatch >= 3 && (shards > 1 || sealed > 0 || ranged), "fn="+a.fn, fmt.Sprintf("shards=%d", shards), fmt.Sprintf("sealed=%d", sealed), "timeseries="+vh.B(a.interval > 0), "ranged="+vh.B(ranged), fmt.Sprintf("active-docs=%s", vh.B(activeDocs > 0)), limits.tag(), "async="+vh.B(q.async))
+		if limits.small() && err != nil && (refused(err) || errors.Is(err, consts.ErrPartialResponse)) {
+			// a store over its limit refuses: the proxy answers with an error or flags the response as partial -
+			// explicit outcomes; what must never happen is a silently short aggregation (checked below when err == nil)
+			orc.Distribution["outcome=limit-refusal"]++
+			continue
+		}
 		if err != nil {
 			rep.Violate(vh.Violation{Site: "proxy/search/ingestor.go:Search", Class: "agg-error-on-valid-input", What: err.Error(), Replay: []string{key}})
 			continue
@@ -1712,6 +1835,9 @@ func e2eEnv(rep *vh.Report, orc *vh.Oracle, shards int, limits bool, batches [][
 		want := expectedBuckets([][]doc{inRange}, a, skip)
 		if got != want {
 			site, class := classify([][]doc{inRange}, a, skip, got, want)
+			if limits.small() && class == "agg-value-differs-from-documents" {
+				site, class = "proxy/search/ingestor.go:searchShard", "store-refusal-merged-as-empty-shard"
+			}
 			rep.Violate(vh.Violation{Site: site, Class: class,
 				What: fmt.Sprintf("end to end %s: got %s want %s", a.String(), shiftMids(got, base), shiftMids(want, base)), Replay: []string{key}})
 		}
@@ -1798,7 +1924,11 @@ func e2eChild(o vh.Opts) {
 	nEnv := o.Pick(4, 60)
 	for e := 0; e < nEnv && orc.Error == ""; e++ {
 		shards := rng.Range(1, 3)
-		limits := rng.Bool()
+		limits := genLim(rng)
+		if e == 1 { // the second environment always runs with small limits and two shards: some store refuses
+			limits = limSpec(fmt.Sprintf("s%d.%d.0", rng.Range(1, 3), rng.Range(0, 3)))
+			shards = 2
+		}
 		nb := rng.Range(1, 4)
 		if e == 0 && nb < 2 { // the first environment always has a sealed and an active fraction
 			nb = 2
@@ -1857,7 +1987,7 @@ func replayE2E(line string, rep *vh.Report, orc *vh.Oracle) {
 	}
 	shards, _ := strconv.Atoi(strings.TrimPrefix(f[1], "shards="))
 	sealed, _ := strconv.Atoi(strings.TrimPrefix(f[2], "sealed="))
-	limits := f[3] == "lim=1"
+	limits := limSpec(strings.TrimPrefix(f[3], "lim="))
 	async := f[4] == "async=1"
 	a := parseAggq(f[5])
 	hist, _ := strconv.ParseUint(strings.TrimPrefix(f[6], "hist="), 10, 64)
@@ -2042,6 +2172,9 @@ func main() {
 		ch, orc := codecChannel(o, rng.Fork(), rep)
 		rep.AddChannel(ch, o.Driver)
 		rep.AddOracle(orc)
+	}
+	if want("parse.num") {
+		rep.AddChannel(parseNumChannel(o, rng.Fork()), o.Driver)
 	}
 	if want("codec.fields") {
 		rep.AddChannel(codecFieldsChannel(o, rng.Fork()), o.Driver)
